@@ -13,8 +13,8 @@ ID = "C30"
 LEVEL = "exploration"
 TECHNIQUE = "runtime monitoring: per-message row-count invariant (PlotLogs, RecentRuns per run id) over enumerated histories"
 RULE = ("base histories of <= 8 engine messages (B1 one run with 3 tag batches; B2 two consecutive runs; B3 a run with "
-        "no tag batch) mutated by every single and every ordered pair (thorough: also every triple on B1/B3, pairs on "
-        "a two-engine interleaving, plus seeded random chains of 4-6) of {duplicate a run-started, duplicate a "
+        "no tag batch) mutated by every single and every ordered pair (thorough: also every triple on B1/B2/B3 and "
+        "pairs on a two-engine interleaving B4; both tiers: seeded random chains of 4-6 on B1-B4) of {duplicate a run-started, duplicate a "
         "run-stopped, swap two adjacent messages, disconnect + re-register} at every position after the websocket "
         "connect; duplicates removed by content. distinct = the history; non-trivial = differs from its base by more "
         "than the mutual order of tag batches (a notification is duplicated or displaced, or the engine reconnects)")
@@ -27,7 +27,7 @@ ASSUMPTIONS = [
     "contents of the plot log / recent run (e.g. data lost after a premature store) are not judged here, only row counts",
     "classifier inputs (active run of the engine before each message) are read from Aggregator.get_registered_engine_data",
 ]
-REQUIRED = {"histories": 1500, "count_checks": 15000, "end_checks": 1500, "dup_run_started_delivered": 500,
+REQUIRED = {"histories": 1000, "count_checks": 10000, "end_checks": 1000, "dup_run_started_delivered": 500,
             "dup_run_stopped_delivered": 500, "reconnects": 300, "histories_with_reordered_notifications": 100}
 EXHAUSTIVE_ALL = False
 
@@ -131,7 +131,7 @@ def plan(tier, seed):
             specs += [{"mode": "enum", "base": name, "depth": depth, "part": i, "of": parts} for i in range(parts)]
         specs.append({"mode": "random", "seed": seed * 1000003 + 1, "n": 150, "bases": ["B1", "B2", "B3", "B4"]})
     else:
-        for name, depth, parts in (("B1", 3, 24), ("B2", 2, 4), ("B3", 3, 6), ("B4", 2, 10)):
+        for name, depth, parts in (("B1", 3, 12), ("B2", 3, 24), ("B3", 3, 4), ("B4", 2, 8)):
             specs += [{"mode": "enum", "base": name, "depth": depth, "part": i, "of": parts} for i in range(parts)]
         specs += [{"mode": "random", "seed": seed * 1000003 + 1 + i, "n": 800, "bases": ["B1", "B2", "B3", "B4"]}
                   for i in range(4)]
